@@ -133,7 +133,7 @@ func runThorough(e *Engine, r *Report, id, repo, verif string, noSelf bool, extr
 			defer wg.Done()
 			sem <- struct{}{}
 			defer func() { <-sem }()
-			results[i] = runOnePatch(self, repo, id, j.path, j.kind)
+			results[i] = runOnePatch(self, repo, verif, id, j.path, j.kind)
 		}(i, j)
 	}
 	wg.Wait()
@@ -154,7 +154,7 @@ func runThorough(e *Engine, r *Report, id, repo, verif string, noSelf bool, extr
 	extra["benign_silent"] = silent
 }
 
-func runOnePatch(self, repo, id, patch, kind string) selfResult {
+func runOnePatch(self, repo, verif, id, patch, kind string) selfResult {
 	t0 := time.Now()
 	res := selfResult{Patch: patch, Kind: kind, Expected: map[string]string{"mutant": "violation", "benign": "silence"}[kind]}
 	tmp, err := os.MkdirTemp("", "nrilint-selftest-")
@@ -166,6 +166,10 @@ func runOnePatch(self, repo, id, patch, kind string) selfResult {
 	scratch := filepath.Join(tmp, "repo")
 	sv := filepath.Join(tmp, "verif")
 	os.MkdirAll(sv, 0o755)
+	// recorded findings stay recorded in the scratch run: a mutant must produce a NEW violation, a benign patch none
+	if b, err := os.ReadFile(filepath.Join(verif, "known-findings.txt")); err == nil {
+		os.WriteFile(filepath.Join(sv, "known-findings.txt"), b, 0o644)
+	}
 	if out, err := exec.Command("rsync", "-a", "--exclude=.git", "--exclude=build", repo+"/", scratch+"/").CombinedOutput(); err != nil {
 		res.Got = "error copying: " + string(out)
 		return res
